@@ -7,6 +7,7 @@ The file is rewritten only when its content changes."""
 from __future__ import annotations
 
 import ast
+import re
 import inspect
 import json
 import os
@@ -178,12 +179,25 @@ MUTATORS = {"append", "extend", "insert", "pop", "remove", "clear", "update", "a
 
 
 def write_footprint():
-    """Every write to an attribute of self/cls or to a module-level object outside __init__/register*:
-    assignments, augmented assignments, deletes, item stores and mutating method calls (AST of src/joserfc)."""
+    """Every statement that can write to an object a call did not create itself, outside __init__/register*
+    (AST of src/joserfc): assignments, augmented assignments, deletes, item stores and mutating method calls whose
+    target is an attribute/item of
+      * `self` / `cls`                                 (owner = the enclosing class),
+      * a module-level name (assigned, imported, class or function) or a name declared `global`   (owner = "<module>"),
+      * a parameter                                    (owner = the package class named in its annotation, `?` if none),
+      * a local that is an ALIAS of one of those: assigned from such a name or from an attribute/item chain on it with no
+        call in between, or the loop variable of an iteration over one (owner inherited);
+    plus `setattr`/`__setattr__` calls and memoising decorators (lru_cache, cache, cached_property)."""
     import joserfc
     root = Path(joserfc.__file__).resolve().parent
     out = []
-    for f in sorted(root.rglob("*.py")):
+    files = sorted(root.rglob("*.py"))
+    package_classes = set()
+    for f in files:
+        for n in ast.walk(ast.parse(f.read_text())):
+            if isinstance(n, ast.ClassDef):
+                package_classes.add(n.name)
+    for f in files:
         rel = str(f.relative_to(root))
         tree = ast.parse(f.read_text())
         module_names = set()
@@ -194,11 +208,11 @@ def write_footprint():
                         module_names.add(t.id)
             elif isinstance(n, ast.AnnAssign) and isinstance(n.target, ast.Name):
                 module_names.add(n.target.id)
-
-        def base_name(node):
-            while isinstance(node, (ast.Attribute, ast.Subscript)):
-                node = node.value
-            return node.id if isinstance(node, ast.Name) else None
+            elif isinstance(n, (ast.Import, ast.ImportFrom)):
+                for al in n.names:
+                    module_names.add((al.asname or al.name).split(".")[0])
+            elif isinstance(n, (ast.ClassDef, ast.FunctionDef, ast.AsyncFunctionDef)):
+                module_names.add(n.name)
 
         def describe(node):
             try:
@@ -206,16 +220,84 @@ def write_footprint():
             except Exception:  # noqa: BLE001
                 return "?"
 
-        def visit_func(fn, owner):
+        def ann_class(a):
+            """the parameter's annotation as written (typing prefixes dropped): the Lean side decides which annotations
+            denote per-call message objects"""
+            if a is None:
+                return "?"
+            txt = describe(a).strip("\"'").replace("t.", "").replace("typing.", "").replace(" ", "")
+            return txt
+
+        def visit_func(fn, cls_name):
+            owner_self = cls_name or ""
+            for d in fn.decorator_list:
+                dn = describe(d)
+                if any(k in dn for k in ("lru_cache", "cached_property")) or dn in ("cache", "functools.cache"):
+                    out.append((rel, owner_self, fn.name, "decorator", dn))
             if fn.name == "__init__" or fn.name.startswith("register"):
                 return
-            local = {a.arg for a in fn.args.args + fn.args.kwonlyargs} | ({fn.args.vararg.arg} if fn.args.vararg else set()) | ({fn.args.kwarg.arg} if fn.args.kwarg else set())
+            params = {}
+            for a in fn.args.posonlyargs + fn.args.args + fn.args.kwonlyargs:
+                params[a.arg] = ann_class(a.annotation)
+            if fn.args.vararg:
+                params[fn.args.vararg.arg] = "?"
+            if fn.args.kwarg:
+                params[fn.args.kwarg.arg] = "?"
+            globals_declared = set()
+            assigned = set()
             for node in ast.walk(fn):
+                if isinstance(node, ast.Global):
+                    globals_declared.update(node.names)
                 if isinstance(node, (ast.Assign, ast.AugAssign, ast.AnnAssign)):
-                    targets = node.targets if isinstance(node, ast.Assign) else [node.target]
-                    for t in targets:
+                    for t in (node.targets if isinstance(node, ast.Assign) else [node.target]):
                         if isinstance(t, ast.Name):
-                            local.add(t.id)
+                            assigned.add(t.id)
+            local = (set(params) | assigned) - globals_declared
+            alias = {}          # local name -> (text of what it aliases, owner)
+
+            def root_of(expr, whole_ok=False):
+                """(text, owner) of the pre-existing object `expr` denotes without copying, or None.
+                `whole_ok`: a bare parameter / module name itself counts (iteration over it, aliasing it)."""
+                if isinstance(expr, ast.IfExp):
+                    return root_of(expr.body, whole_ok) or root_of(expr.orelse, whole_ok)
+                e = expr
+                while isinstance(e, (ast.Attribute, ast.Subscript)):
+                    e = e.value
+                if not isinstance(e, ast.Name):
+                    return None
+                bare = e is expr
+                if e.id in ("self", "cls"):
+                    return None if bare else (describe(expr), owner_self)
+                if e.id in alias:
+                    return (alias[e.id][0] if bare else f"{describe(expr)} <- {alias[e.id][0]}", alias[e.id][1])
+                if (e.id in module_names and e.id not in local) or e.id in globals_declared:
+                    return (describe(expr), "<module>")
+                if e.id in params and e.id not in ("self", "cls") and (whole_ok or not bare):
+                    return (describe(expr), params[e.id])
+                return None
+            changed = True
+            while changed:
+                changed = False
+                for node in ast.walk(fn):
+                    if isinstance(node, ast.Assign) and len(node.targets) == 1 and isinstance(node.targets[0], ast.Name):
+                        nm = node.targets[0].id
+                        if nm in alias or nm in globals_declared or nm in params:
+                            continue
+                        r = root_of(node.value, whole_ok=True)
+                        if r is not None and not (isinstance(node.value, ast.Name) and node.value.id in params and False):
+                            alias[nm] = r
+                            changed = True
+                    elif isinstance(node, (ast.For, ast.comprehension)):
+                        tg = node.target
+                        names = [tg] if isinstance(tg, ast.Name) else [x for x in getattr(tg, "elts", []) if isinstance(x, ast.Name)]
+                        it = node.iter
+                        if isinstance(it, ast.Call) and describe(it.func) in ("enumerate", "zip", "list", "iter", "reversed", "sorted") and it.args:
+                            it = it.args[-1] if describe(it.func) == "zip" else it.args[0]
+                        r = root_of(it, whole_ok=True)
+                        for x in names:
+                            if r is not None and x.id not in alias and x.id not in params:
+                                alias[x.id] = (f"element of {r[0]}", r[1])
+                                changed = True
             for node in ast.walk(fn):
                 targets = []
                 kind = None
@@ -227,19 +309,32 @@ def write_footprint():
                     targets, kind = node.targets, "del"
                 elif isinstance(node, ast.Call) and isinstance(node.func, ast.Attribute) and node.func.attr in MUTATORS:
                     targets, kind = [node.func.value], "call." + node.func.attr
+                elif isinstance(node, ast.Call) and (describe(node.func) == "setattr" or describe(node.func).endswith("__setattr__")):
+                    out.append((rel, owner_self, fn.name, "setattr", describe(node)))
+                    continue
                 for t in targets:
+                    if isinstance(t, ast.Name):
+                        if t.id in globals_declared:
+                            out.append((rel, "<module>", fn.name, kind + ".global", t.id))
+                        continue
                     if not isinstance(t, (ast.Attribute, ast.Subscript)):
                         continue
-                    b = base_name(t)
-                    if b in ("self", "cls") or (b in module_names and b not in local):
-                        out.append((rel, owner.rstrip("."), fn.name, kind, describe(t)))
+                    if kind.startswith("call."):
+                        r = root_of(t, whole_ok=True)       # x.update(...) mutates x itself
+                        if isinstance(t, ast.Name) and t.id in params:
+                            r = None if t.id in ("self", "cls") else (t.id, params[t.id])
+                    else:
+                        r = root_of(t)
+                    if r is None:
+                        continue
+                    out.append((rel, r[1], fn.name, kind, r[0] if r[0].startswith(describe(t)) else f"{describe(t)} <- {r[0]}"))
         for n in tree.body:
             if isinstance(n, (ast.FunctionDef, ast.AsyncFunctionDef)):
                 visit_func(n, "")
             elif isinstance(n, ast.ClassDef):
                 for m in n.body:
                     if isinstance(m, (ast.FunctionDef, ast.AsyncFunctionDef)):
-                        visit_func(m, n.name + ".")
+                        visit_func(m, n.name)
     return sorted(set(out))
 
 
